@@ -138,9 +138,12 @@ class Ctx:
         self.reads = None  # collector active while a value is being built
 
     def atom(self, k, j, i, tail):
-        key = (k.key(), j.key(), i.key(), tail)
+        return self.named_atom("S", k, j, i, tail)
+
+    def named_atom(self, nm, k, j, i, tail):
+        key = (nm, k.key(), j.key(), i.key(), tail)
         if key not in self.atoms:
-            name = "S[%r,%r,%r|%s]" % (k, j, i, ",".join(map(str, tail)))
+            name = "%s[%r,%r,%r|%s]" % (nm, k, j, i, ",".join(map(str, tail)))
             self.atoms[key] = (S.Sym.symbol(name, "opq"), (k, j, i), tail)
         return self.atoms[key][0]
 
@@ -181,10 +184,15 @@ def _norm_slice(sl, D):
     if sl.step not in (None, 1):
         raise alg.Undecided("generic slice with a step")
     lo = 0 if sl.start is None else sl.start
+    if isinstance(lo, Aff):
+        raise alg.Undecided("generic slice with a symbolic start")
     lo = Aff.of(lo) if lo >= 0 else D + lo
     ubs = [D]
     if sl.stop is not None:
-        ubs.append(Aff.of(sl.stop) if sl.stop >= 0 else D + sl.stop)
+        if isinstance(sl.stop, Aff):
+            ubs.append(sl.stop)  # symbolic stop (>= 0 by the extent premises)
+        else:
+            ubs.append(Aff.of(sl.stop) if sl.stop >= 0 else D + sl.stop)
     return lo, ubs
 
 
@@ -258,8 +266,11 @@ def _index(idx, dims, tail_shape):
     if not isinstance(idx, tuple):
         idx = (idx,)
     nsrc = len(dims) + len(tail_shape)
-    if sum(1 for x in idx if x is not None) != nsrc:
-        raise alg.Undecided("generic indexing needs one index per axis (got %r)" % (idx,))
+    given = sum(1 for x in idx if x is not None)
+    if given < nsrc:
+        idx = idx + (slice(None),) * (nsrc - given)  # missing trailing indices mean ':'
+    elif given > nsrc:
+        raise alg.Undecided("too many indices (got %r)" % (idx,))
     out, points = [], {}
     ax = 0
     for x in idx:
@@ -272,7 +283,7 @@ def _index(idx, dims, tail_shape):
                 lo, ubs = _norm_slice(x, D)
                 if D.is_const() and D.c == 1 and lo.is_const() and lo.c == 0:
                     out.append(("one", ax, Aff.of(0)))  # the only element of a length-1 axis
-                elif lo.is_const() and x.stop is not None and x.stop >= 0 and x.stop - lo.c == 1 and lo.c == 0:
+                elif lo.is_const() and isinstance(x.stop, (int, _np.integer)) and x.stop >= 0 and x.stop - lo.c == 1 and lo.c == 0:
                     out.append(("one", ax, lo))  # 0:1 on an axis of size >= 1: exactly one element
                 else:
                     out.append(("sym", ax, SymAxis(lo, ubs)))
@@ -366,6 +377,7 @@ class GArray:
             r = dict(r)
             r["seq"] = C.seq
             r["wcons"] = ev["cons"]
+            r["widx"] = ev["idx"]
             C.events.append(r)
         # aligned symbolic axes: equal length; the value may not have a symbolic axis the target lacks
         for slot, axs in val.sym.items():
@@ -377,6 +389,28 @@ class GArray:
             vdata = vdata[0]
         ev["value"] = _np.broadcast_to(vdata, data.shape)
         C.events.append(ev)
+
+
+class GSpecTable(GArray):
+    """result of a callee that is replaced by its contract: a table every element of which IS the callee's specification
+    (atoms `name[k,j,i]`); reading it records nothing - it is not the table under construction"""
+
+    def __init__(self, dims, tail, name):
+        GArray.__init__(self, dims, tail)
+        self.name = name
+
+    def __getitem__(self, idx):
+        C = CTX[0]
+        real_atom = C.atom
+        C.atom = lambda k, j, i, tail: C.named_atom(self.name, k, j, i, tail)
+        try:
+            data, sym, _ev = self._view(idx, True)
+        finally:
+            C.atom = real_atom
+        return GVal(data, sym, [])
+
+    def __setitem__(self, idx, val):
+        raise alg.Undecided("assignment into a callee's result")
 
 
 class GIota:
